@@ -324,39 +324,27 @@ def sel_bbox(dset, lons, lats, tolerance=0.0, dset_lons=None, dset_lats=None):
         dset, lons=lons, lats=lats, dset_lons=dset_lons, dset_lats=dset_lats
     )
 
-    minlon = min(coords.lons) - tolerance
+    # The bbox is defined in the convention of the query so stations are compared
+    # in that convention
+    dset_lons = np.array(coords.dset_lons)
+    if not coords.consistent:
+        dset_lons = coords._swap_longitude_convention(dset_lons)
+
+    minlon = min(coords._lons) - tolerance
     minlat = min(coords.lats) - tolerance
-    maxlon = max(coords.lons) + tolerance
+    maxlon = max(coords._lons) + tolerance
     maxlat = max(coords.lats) + tolerance
-    if not (coords._is_360(coords.dset_lons) and not coords.consistent):
-        station_ids = np.where(
-            (coords.dset_lons >= minlon)
-            & (coords.dset_lats >= minlat)
-            & (coords.dset_lons <= maxlon)
-            & (coords.dset_lats <= maxlat)
-        )[0]
-    else:
-        station_ids = np.where(
-            (coords.dset_lons >= maxlon)
-            & (coords.dset_lats >= minlat)
-            & (coords.dset_lons <= 360)
-            & (coords.dset_lats <= maxlat)
-        )[0]
-        station_ids = np.append(
-            station_ids,
-            np.where(
-                (coords.dset_lons >= 0)
-                & (coords.dset_lats >= minlat)
-                & (coords.dset_lons <= minlon)
-                & (coords.dset_lats <= maxlat)
-            )[0],
-        )
+    station_ids = np.where(
+        (dset_lons >= minlon)
+        & (coords.dset_lats >= minlat)
+        & (dset_lons <= maxlon)
+        & (coords.dset_lats <= maxlat)
+    )[0]
 
     if station_ids.size == 0:
         raise ValueError(
             "No site found within bbox defined by "
-            f"([{min(coords._lons) - tolerance}, {minlat}], "
-            f"[{max(coords._lons) + tolerance}, {maxlat}])"
+            f"([{minlon}, {minlat}], [{maxlon}, {maxlat}])"
         )
 
     dsout = dset.isel(**{attrs.SITENAME: station_ids})
